@@ -1,10 +1,12 @@
 from __future__ import annotations
 
+import copyreg
 import datetime
 
 from datetime import time
 from datetime import timedelta
 from typing import TYPE_CHECKING
+from typing import Any
 from typing import Optional
 from typing import cast
 from typing import overload
@@ -305,15 +307,17 @@ class Time(FormattableMixin, time):
 
         return self.hour, self.minute, self.second, self.microsecond, tz
 
-    def __reduce__(
-        self,
-    ) -> tuple[type[Time], tuple[int, int, int, int, datetime.tzinfo | None]]:
+    def __reduce__(self) -> tuple[Any, ...]:
         return self.__reduce_ex__(2)
 
-    def __reduce_ex__(
+    def __reduce_ex__(  # type: ignore[override]
         self, protocol: SupportsIndex
-    ) -> tuple[type[Time], tuple[int, int, int, int, datetime.tzinfo | None]]:
-        return self.__class__, self._get_state(protocol)
+    ) -> tuple[Any, ...]:
+        # fold is keyword-only: it cannot travel with the positional state
+        return (
+            copyreg.__newobj_ex__,  # type: ignore[attr-defined]
+            (self.__class__, self._get_state(protocol), {"fold": self.fold}),
+        )
 
 
 Time.min = Time(0, 0, 0)
